@@ -17,6 +17,8 @@ int wk_verbose = 0;
 static int real_stdout = 1;
 static const char *log_path = NULL;
 static regex_t known_re[8]; static int n_known_re = 0;
+static int sig_is_known(const char *sig);
+int wk_sig_known(const char *sig) { return sig_is_known(sig); }
 static int sig_is_known(const char *sig) { for (int i = 0; i < n_known_re; i++) if (regexec(&known_re[i], sig, 0, NULL, 0) == 0) return 1; return 0; }
 
 int wk_fail(vres *r, const char *sig, const char *fmt, ...)
